@@ -180,7 +180,7 @@ def validate(spec_name, trace_path, tag, max_lines=60000, par=None, timeout=3000
 
 
 def tlc_mc(spec_path, cfg_path, tag, workers=8, timeout=3000, xmx="8g", extra=None,
-           simulate=None):
+           simulate=None, coverage=True):
     """Model checking of a Tier-B model (P2).  Returns dict(states, distinct,
     coverage={action: count}, out).  A failing invariant of an unchanged spec is a
     tool error, not a violation (DESIGN.md 2.3)."""
@@ -189,12 +189,14 @@ def tlc_mc(spec_path, cfg_path, tag, workers=8, timeout=3000, xmx="8g", extra=No
     md.mkdir(parents=True, exist_ok=True)
     env = dict(os.environ)
     env.pop("JAVA_TOOL_OPTIONS", None)
+    # NB: -coverage disables TLC's caching of lazily evaluated values; models whose invariants
+    # evaluate deep recursive operators (Patch) must be run without it.
     cmd = java_cmd(xmx=xmx, deque=False) + ["-workers", str(workers), "-metadir", str(md),
-                                            "-cleanup", "-noGenerateSpecTE", "-coverage", "1",
-                                            "-config", str(cfg_path)]
+                                            "-cleanup", "-noGenerateSpecTE"] + \
+        (["-coverage", "1"] if coverage else []) + ["-config", str(Path(cfg_path).resolve())]
     if simulate:
         cmd += ["-simulate", simulate]
-    cmd += (extra or []) + [str(spec_path)]
+    cmd += (extra or []) + [str(Path(spec_path).resolve())]
     t0 = time.time()
     try:
         p = subprocess.run(cmd, capture_output=True, text=True, env=env, timeout=timeout,
@@ -246,7 +248,7 @@ def tlc_dump(spec_path, cfg_path, tag, workers=4, timeout=3000):
             st = json.load(open(meta_path))
             st["cached"] = True
             return out_path, st
-        res = tlc_mc(spec_path, cfg_path, tag + "_dump", workers=workers, timeout=timeout)
+        res = tlc_mc(spec_path, cfg_path, tag + "_dump", workers=workers, timeout=timeout, coverage=False)
         if not res["ok"]:
             raise ToolError(f"TLC dump run failed for {cfg_path}:\n" + res["out"][-3000:])
         n = 0
@@ -268,7 +270,7 @@ def tlc_dump(spec_path, cfg_path, tag, workers=4, timeout=3000):
         lock.close()
 
 
-def tlc_mc_cached(spec_path, cfg_path, tag, workers=8, timeout=3000):
+def tlc_mc_cached(spec_path, cfg_path, tag, workers=8, timeout=3000, coverage=True):
     """P2 with a cache keyed by the hash of all specs + cfg (the model does not depend on /repo)."""
     cache = WORK / "cache"
     cache.mkdir(parents=True, exist_ok=True)
@@ -280,7 +282,7 @@ def tlc_mc_cached(spec_path, cfg_path, tag, workers=8, timeout=3000):
             st = json.load(open(meta_path))
             st["cached"] = True
             return st
-        res = tlc_mc(spec_path, cfg_path, tag, workers=workers, timeout=timeout)
+        res = tlc_mc(spec_path, cfg_path, tag, workers=workers, timeout=timeout, coverage=coverage)
         st = dict(ok=bool(res["ok"]), states=res["states"], distinct=res["distinct"], wall=round(res["wall"], 1),
                   coverage=res["coverage"], cached=False, tail=res["out"][-1500:] if not res["ok"] else "")
         if st["ok"]:
